@@ -323,7 +323,7 @@ _SCRIPT = _ST + "[{n}].kind == 'script' and " + _ST + "[{n}].script == script"
 _DFLT = _ST + "[{n}].kind == 'language' and " + _ST + "[{n}].language == 'dflt' and " + _ST + "[{n}].include_default"
 
 
-def _alr_contract(name, languages_ty, props):
+def _alr_contract(name, languages_ty, props, general=False):
     nd = "k5_nondflt(languages, len(languages))"
     base = f"{_N0} + 2 + len(lookups)"
     return contract(
@@ -356,16 +356,7 @@ def _alr_contract(name, languages_ty, props):
             "fresh": f"all(n < {_N0} or fresh({_ST}[n]) for n in range(len({_ST})))",
         },
         canaries={"no-lookups": f"len({_ST}) == {_N0} + 2"},
-        loops={
-            "for lookup in lookups#3": Loop(index="j", invariants={
-                "shape": f"{_ST} == st0 + new and len(new) == 2 + j",
-                "untouched": "all(" + " and ".join(f"st0[n].{f} == old({_ST}[n].{f})" for f in _STMT_FIELDS) + " for n in range(len(st0)))",
-                # the statements made so far are new objects that exist now (the one created next is yet another object)
-                "new": "all(fresh(new[b]) and allocated(new[b]) for b in range(len(new)))",
-                "head": "new[0].kind == 'script' and new[0].script == script and new[1].kind == 'language' and new[1].language == 'dflt' and new[1].include_default",
-                "refs": "all(new[2 + b].kind == 'lookupref' and new[2 + b].lookup == lookups[b] for b in range(j))",
-            }),
-        },
+        loops=_alr_loops(general),
         # position-wise view of `statements == st0 + new` (proved once, then used by the postconditions)
         hints={"for language in languages or ():": [f"all(n < len(st0) or {_ST}[n] == new[n - len(st0)] for n in range(len({_ST})))"]},
         globals={"fresh": _native_fresh},
@@ -375,12 +366,33 @@ def _alr_contract(name, languages_ty, props):
             "feature.statements.append(ast.ScriptStatement(script))": ["new = new + [feature.statements[len(feature.statements) - 1]]"],
             "feature.statements.append(ast.LanguageStatement('dflt', include_default=True))": ["new = new + [feature.statements[len(feature.statements) - 1]]"],
             "feature.statements.append(ast.LookupReferenceStatement(lookup))": ["new = new + [feature.statements[len(feature.statements) - 1]]"],
+            **({"feature.statements.append(ast.LanguageStatement(language, include_default=True))": ["new = new + [feature.statements[len(feature.statements) - 1]]"]} if general else {}),
         },
     )
 
 
+def _alr_loops(general):
+    untouched = "all(" + " and ".join(f"st0[n].{f} == old({_ST}[n].{f})" for f in _STMT_FIELDS) + " for n in range(len(st0)))"
+    # the statements made so far are new objects that exist now (the one created next is yet another object)
+    new = "all(fresh(new[b]) and allocated(new[b]) for b in range(len(new)))"
+    head = "new[0].kind == 'script' and new[0].script == script and new[1].kind == 'language' and new[1].language == 'dflt' and new[1].include_default"
+    refs = "all(new[2 + b].kind == 'lookupref' and new[2 + b].lookup == lookups[b] for b in range({n}))"
+    loops = {"for lookup in lookups#3": Loop(index="j", invariants={
+        "shape": f"{_ST} == st0 + new and len(new) == 2 + j", "untouched": untouched, "new": new, "head": head, "refs": refs.format(n="j")})}
+    if general:
+        nd = "k5_nondflt(languages, q)"
+        loops["for language in languages or ()"] = Loop(index="q", invariants={
+            "shape": f"{_ST} == st0 + new and len(new) == 2 + len(lookups) + len({nd})", "untouched": untouched, "new": new, "head": head,
+            "refs": refs.format(n="len(lookups)"),
+            "langs": f"all(new[2 + len(lookups) + b].kind == 'language' and new[2 + len(lookups) + b].include_default and new[2 + len(lookups) + b].language == {nd}[b] for b in range(len({nd})))",
+        })
+    return loops
+
+
 # the default: no languagesystem statement names the tag -> languages == ["dflt"]
 _alr_contract("dflt-only", Const(["dflt"]), ["C05"])
+# the general case: the languages declared for the tag by languagesystem statements (a list; `languages or ()`)
+_alr_contract("script", List(STR), ["C05"], general=True)
 
 
 def _alr_cases(rng, n):
